@@ -361,47 +361,35 @@ def run(ctx):  # noqa: C901, PLR0912, PLR0915
     # ------------------------------------------------------------ R6 no state is (re-)added for a removed descriptor
     ctx.rule('C02.R6', 'states whose descriptor is removed in the same transaction are not added back (no orphan states)')
     gd = cfg_of(dpt)
-    la = local_assignments(dpt.node)
-    sub = [nm for nm, vals in la.items() if any(isinstance(v, ast.Call) and call_name(v) == 'get_all_descriptors_in_subtree'
-                                                for v in vals)]
     hs = gd.nodes_calling('_handle_state_updates')
     if not hs:
         raise AnalysisError('C02.R6: _handle_state_updates not found in DescriptorTransaction.process_transaction')
-    if not sub:
-        sub = [nm for nm, vals in la.items() if nm == 'all_descriptors']
-    # names that carry the removed descriptors / their handles
-    carriers = set(sub)
-    changed = True
-    while changed:
-        changed = False
-        for n in walk_no_nested(dpt.node):
-            tgt = None
-            if isinstance(n, ast.Assign) and isinstance(n.targets[0], ast.Name):
-                tgt, val = n.targets[0].id, n.value
-            elif isinstance(n, ast.Expr) and isinstance(n.value, ast.Call) and isinstance(n.value.func, ast.Attribute) \
-                    and n.value.func.attr in ('update', 'add', 'extend', 'append') and isinstance(n.value.func.value, ast.Name):
-                tgt, val = n.value.func.value.id, n.value
-            if tgt and tgt not in carriers and tgt != 'proc' and \
-                    any(isinstance(x, ast.Name) and x.id in carriers for x in ast.walk(val)):
-                carriers.add(tgt)
-                changed = True
-    carriers -= {'proc'}
-    # a filter of the state update dicts (del / pop / comprehension) that depends on a carrier, or the carrier is
-    # handed to _handle_state_updates, before the states are written
+    # data dependence (engine/deps.py): an entry is removed from a state-update dict (del d[k] / d.pop(k)) with a key that is
+    # computed from the descriptors this transaction removes (get_all_descriptors_in_subtree), before the dict is written
+    from engine.deps import Deps
+    dp = Deps(dpt.node)
+    REMOVED = 'call:get_all_descriptors_in_subtree'
+    carriers = sorted(nm for nm in dp.binds if REMOVED in dp.sources(ast.Name(id=nm, ctx=ast.Load())))
     filt = []
     for n in gd.real_nodes():
-        st = n.stmt
-        uses = any(isinstance(x, ast.Name) and x.id in carriers - set(sub) for x in n.walk())
-        if not uses:
-            continue
-        if n.kind == 'stmt' and isinstance(st, ast.Delete) and 'updates' in unparse(st):
-            filt.append(n)
-        if n.kind in ('for', 'stmt', 'test') and any(isinstance(c, ast.Call) and call_name(c) in ('pop', '_handle_state_updates')
-                                                     for c in n.walk()):
-            filt.append(n)
-        if n.kind == 'for' and 'updates' in n.text():
-            filt.append(n)
-    ok = bool(filt) and all(any(gd.dominates(f, h) or f is h for f in filt) for h, _ in hs)
+        keys = []
+        if n.kind == 'stmt' and isinstance(n.stmt, ast.Delete):
+            keys += [(t.value, t.slice) for t in n.stmt.targets if isinstance(t, ast.Subscript)]
+        for c in n.calls():
+            if call_name(c) == 'pop' and isinstance(c.func, ast.Attribute) and c.args:
+                keys.append((c.func.value, c.args[0]))
+        for container, key in keys:
+            if REMOVED in dp.sources(key) and any(s_.startswith('self.') and s_.endswith('_state_updates')
+                                                  for s_ in dp.sources(container)):
+                filt.append(n)
+    # the filtering (its innermost loop, when it sits in one that does not also contain the write) precedes the write
+    heads = []
+    for f in filt:
+        for h, _c in hs:
+            inner = [lp for lp in f.loops if lp not in h.loops]
+            if inner:
+                heads += [x for x in gd.nodes if x.kind == 'for' and x.stmt is inner[0]]
+    ok = bool(filt) and all(any(gd.dominates(f, h) for f in filt + heads) for h, _ in hs)
     ctx.ob('C02.R6', 'removed descriptors filter the state updates', ok,
            'state updates of descriptors that this transaction removed (sub trees included) are dropped before the states '
            'are written' if ok else
